@@ -292,6 +292,57 @@ class Model:
         self.entries[name].append(n)
         return verdict
 
+    def add_op_in(self, name, st, impl):
+        """Add an unrelated operation to the nested sub-circuit that is entry st['k'] of the handle."""
+        block = self.entries[name][st["k"]]
+        root = self.roots[name]
+        n = self.make_leaf(st)
+        n.key = impl.get("key")
+        verdict = {"ok": True}
+        if not (block.is_comp and self._contains(root, block)):
+            raise ModelError("entry is not a nested sub-circuit of the handle")
+        if block.rel_known:
+            sharing, adm = self.admissible(block, n.ch)
+            if not sharing:
+                if impl.get("ref_key") is not None and impl.get("checked", True):
+                    verdict = {"ok": False, "why": "first on its channels in the nested block but linked to an operation", "got": [impl["rt"], impl.get("ref_label")]}
+                n.rel = None
+            else:
+                chosen = self.find_by_key(block, impl["ref_key"]) if impl.get("ref_key") is not None else None
+                if chosen is None and impl.get("ref_key") is not None:
+                    cands = [m for m in adm if m.key is None and m.label() == impl.get("ref_label")]
+                    if len(cands) >= 1:
+                        chosen = cands[-1]
+                        if len(cands) == 1:
+                            chosen.key = impl["ref_key"]
+                        else:
+                            self.ambiguous.add(name)
+                            verdict["ambiguous"] = True
+                if chosen is None:
+                    if impl.get("checked", True):
+                        verdict = {"ok": False, "why": "operation shares a channel with earlier operations of the nested block but was not placed after one of the deepest",
+                                   "got": [impl["rt"], impl.get("ref_label")], "admissible": [m.label() for m in adm]}
+                    chosen = adm[-1]
+                elif not any(chosen is a for a in adm) and not verdict.get("ambiguous"):
+                    if impl.get("checked", True):
+                        verdict = {"ok": False, "why": "linked to a channel-sharing operation that is not the deepest in relation steps",
+                                   "got": [impl["rt"], chosen.label()], "admissible": [m.label() for m in adm]}
+                elif impl["rt"] != "FOLLOWED_BY" and impl.get("checked", True):
+                    verdict = {"ok": False, "why": "implicit placement must be FOLLOWED_BY", "got": [impl["rt"]]}
+                if len(adm) > 1:
+                    verdict["tie"] = True
+                n.rel = ("FOLLOWED_BY", chosen)
+        block.members.append(n)
+        return verdict
+
+    def _contains(self, block, node):
+        for m in block.members:
+            if m is node:
+                return True
+            if m.is_comp and self._contains(m, node):
+                return True
+        return False
+
     def copy_tree(self, node, retarget=None, lookup=None):
         """Deep copy of a sub-circuit; internal relations re-pointed, bindings dropped."""
         lookup = {} if lookup is None else lookup
